@@ -122,7 +122,7 @@ impl Stats {
             "diverged": self.diverged,
             "skipped": self.skipped,
             "new_shared": self.new_shared.iter().map(|k| json!([k.0, k.1])).collect::<Vec<_>>(),
-            "violations": self.violations.iter().map(|v| json!({"message": v.message, "cost": v.cost, "choices": v.choices, "replay": v.replay})).collect::<Vec<_>>(),
+            "violations": self.violations.iter().map(|v| json!({"message": v.message, "cost": v.cost, "choices": v.choices, "replay": v.replay, "log": v.log.iter().map(ev_json).collect::<Vec<_>>()})).collect::<Vec<_>>(),
             "digests": self.digests.iter().collect::<Vec<_>>(),
             "digests_interleaved": self.digests_interleaved.iter().collect::<Vec<_>>(),
         })
@@ -154,6 +154,7 @@ impl Stats {
                 cost: vi["cost"].as_u64().unwrap_or(0) as u32,
                 choices: vi["choices"].as_array().map(|a| a.iter().filter_map(|x| x.as_u64()).map(|x| x as u32).collect()).unwrap_or_default(),
                 log: vec![],
+                log_json: vi["log"].as_array().cloned().unwrap_or_default(),
             }).collect()).unwrap_or_default(),
             digests: set("digests"),
             digests_interleaved: set("digests_interleaved"),
@@ -170,6 +171,8 @@ pub struct Violation {
     pub cost: u32,
     pub choices: Vec<u32>,
     pub log: Vec<Ev>,
+    /// the log tail as received from a worker
+    pub log_json: Vec<Value>,
 }
 
 #[derive(Clone, Debug)]
@@ -218,6 +221,18 @@ pub fn hash_choices(c: &[u32]) -> u64 {
     h
 }
 
+pub fn write_replay_json(property: &str, scenario: &str, dir: &str, choices: &[u32], message: &str, tail: &[Value], cost: u32) -> String {
+    let _ = std::fs::create_dir_all(dir);
+    let path = format!("{}/{}-{}-{:016x}.json", dir, property, scenario.replace(|c: char| !c.is_ascii_alphanumeric(), "_"), hash_choices(choices));
+    let v = json!({
+        "property": property, "scenario": scenario, "engine": "sigsched", "choices": choices,
+        "deviations": cost, "message": message,
+        "log_format": "[step, thread, handler_depth, tag, a, b]", "log_tail": tail,
+    });
+    let _ = std::fs::write(&path, serde_json::to_string_pretty(&v).unwrap());
+    path
+}
+
 pub fn write_replay(property: &str, scenario: &str, dir: &str, choices: &[u32], message: &str, log: &[Ev], cost: u32) -> String {
     let _ = std::fs::create_dir_all(dir);
     let path = format!("{}/{}-{}-{:016x}.json", dir, property, scenario.replace(|c: char| !c.is_ascii_alphanumeric(), "_"), hash_choices(choices));
@@ -259,7 +274,7 @@ fn record_violation(out: &Outcome, st: &mut Stats) {
     };
     if better {
         st.violations.retain(|v| class_of(&v.message) != class);
-        st.violations.push(Violation { property: c.property.clone(), scenario: c.scenario.clone(), message: msg, replay: String::new(), cost, choices, log: out.log.clone() });
+        st.violations.push(Violation { property: c.property.clone(), scenario: c.scenario.clone(), message: msg, replay: String::new(), cost, choices, log: out.log.clone(), log_json: vec![] });
     }
 }
 
@@ -296,10 +311,12 @@ fn unmap_shared(s: &'static Shared) {
 }
 
 fn finalize_violations(st: &mut Stats) {
-    let c = ctx();
+    // replay files are written by the parent, only for the violations it finally reports
     for v in st.violations.iter_mut() {
-        v.replay = write_replay(&c.property, &c.scenario, &c.replay_dir, &v.choices, &v.message, &v.log, v.cost);
-        v.log.clear();
+        let n = v.log.len();
+        if n > 400 {
+            v.log.drain(..n - 400);
+        }
     }
 }
 
@@ -550,12 +567,12 @@ fn interpret(results: Vec<ChildResult>, cfg: &Config, scenario: &str, stats: &mu
         if r.hung {
             let msg = "execution hung: a thread is blocked in a call the scheduler cannot see (blocking syscall or unhooked wait) while holding the run token".to_string();
             let path = write_replay(&cfg.property, scenario, &replay_dir(), &r.last_choices, &msg, &[], 0);
-            violations.push(Violation { property: cfg.property.clone(), scenario: scenario.to_string(), message: msg, replay: path, cost: 0, choices: r.last_choices.clone(), log: vec![] });
+            violations.push(Violation { property: cfg.property.clone(), scenario: scenario.to_string(), message: msg, replay: path, cost: 0, choices: r.last_choices.clone(), log: vec![], log_json: vec![] });
         } else if !exited {
             let sig = libc::WTERMSIG(r.status);
             let msg = format!("process died by signal {} during an execution (abort/crash inside library code or a signal handler frame, e.g. a panic crossing the handler)", sig);
             let path = write_replay(&cfg.property, scenario, &replay_dir(), &r.last_choices, &msg, &[], 0);
-            violations.push(Violation { property: cfg.property.clone(), scenario: scenario.to_string(), message: msg, replay: path, cost: 0, choices: r.last_choices.clone(), log: vec![] });
+            violations.push(Violation { property: cfg.property.clone(), scenario: scenario.to_string(), message: msg, replay: path, cost: 0, choices: r.last_choices.clone(), log: vec![], log_json: vec![] });
         } else if code != 0 {
             return Err(format!("worker exited with status {} (machinery failure); output: {}", code, r.output.chars().take(400).collect::<String>()));
         }
@@ -737,6 +754,11 @@ fn explore_once(r: &dyn Runnable, cfg: &Config) -> Result<Summary, String> {
     });
     let _ = &mut seen;
     seen.insert(0u8);
+    for v in violations.iter_mut() {
+        if v.replay.is_empty() {
+            v.replay = write_replay_json(&cfg.property, &name, &replay_dir(), &v.choices, &v.message, &v.log_json, v.cost);
+        }
+    }
     Ok(Summary {
         scenario: name,
         bound,
